@@ -485,3 +485,25 @@ package main
 //@ ensures[undecodable-configuration-is-an-error] (called(LoadYAML) && ret(LoadYAML) != nil) || ret1(loadOptions) != nil ==> ret1 != nil && ret0 == nil
 //@ ensures[the-merged-core-options-are-returned] ret1 == nil ==> called(MergeInto) && ret0 == ret0(loadOptions)
 
+
+// ------------------------------------------------------------------ C16 / C06: the OAuth redirect URI is the configured one, or built from what the request utilities
+// (which honour reverse-proxy mode) report for this request
+//@ func (*OAuthProxy).getOAuthRedirectURI
+//@ safety
+//@ prop C16 C06
+//@ ensures[a-configured-absolute-or-relative-redirect-url-wins] p.relativeRedirectURL || p.redirectURL.Host != "" ==> !called(GetRequestHost)
+//@     && !called(GetRequestProto)
+//@ at call GetRequestHost assert[host-as-the-request-utilities-see-this-request] arg(GetRequestHost, 0) == req
+//@ at call GetRequestProto assert[scheme-as-the-request-utilities-see-this-request] arg(GetRequestProto, 0) == req
+
+// ------------------------------------------------------------------ C05 / C03: the start endpoint is the login start for this request
+//@ func (*OAuthProxy).OAuthStart
+//@ prop C05 C03
+//@ at call doOAuthStart assert[login-started-for-this-request] arg(doOAuthStart, 1) == rw && arg(doOAuthStart, 2) == req
+//@ ensures[always-starts-a-login] called(doOAuthStart)
+
+// ------------------------------------------------------------------ C14 / C19: the optional backend logout call never crashes the sign-out
+//@ func (*OAuthProxy).backendLogout
+//@ safety
+//@ prop C14 C19 C11
+//@ at call http.Get assert[only-for-an-authenticated-session] ret1(getAuthenticatedSession) == nil && ret0(getAuthenticatedSession) != nil
